@@ -4907,3 +4907,152 @@ func init() {
 		r.WithAlias(map[string]string{"C10-R1": "C20-R13"}, func() { checkC10(c, r) })
 	})
 }
+
+// ---------- C10-R12 / C09-R11: a new listing purges the endpoint's old attributions from the merged catalogue ----------
+func init() {
+	registerExtra("C10", func(c *Ctx, r *Report) { extraUnifiedPurge(c, r, "C10-R12") })
+	registerExtra("C09", func(c *Ctx, r *Report) { extraUnifiedPurge(c, r, "C09-R11") })
+}
+
+func extraUnifiedPurge(c *Ctx, r *Report, rule string) {
+	r.Rule(rule, "the function of the unified registry that merges an endpoint's new listing into the merged catalogue (it stores into globalUnified) first enumerates the catalogue (Range over globalUnified, directly or in a callee) and detaches the endpoint from entries ((*UnifiedModel).RemoveEndpoint / Delete) — keyed Load/Store of the listed ids alone can never reach a model that is gone from the listing, so that model would stay attributed to the endpoint in the unified catalogue and GetEndpointsForModel would keep routing it there", 1)
+	const owner = "UnifiedMemoryModelRegistry"
+	isGU := func(v ssa.Value) bool {
+		return mentionsField(v, pkgRegistry, owner, "globalUnified", 3)
+	}
+	// purges(f): f (closures included) ranges over globalUnified and detaches an endpoint inside, or calls a repo function that does
+	var purges func(f *ssa.Function, depth int) bool
+	purges = func(f *ssa.Function, depth int) bool {
+		if f == nil || f.Blocks == nil || depth == 0 {
+			return false
+		}
+		ranges, detaches, viaCallee := false, false, false
+		for _, g := range withAnon(f) {
+			eachInstr(g, func(in ssa.Instruction) {
+				cc := getCall(in)
+				if cc == nil {
+					return
+				}
+				ci := describeCall(cc)
+				if !cc.IsInvoke() && strings.Contains(ci.Pkg, "xsync") && (ci.Name == "Range" || ci.Name == "All") && len(cc.Args) > 0 && isGU(cc.Args[0]) {
+					ranges = true
+				}
+				if ci.Name == "RemoveEndpoint" && ci.Recv == "UnifiedModel" {
+					detaches = true
+				}
+				if !cc.IsInvoke() && strings.Contains(ci.Pkg, "xsync") && ci.Name == "Delete" && len(cc.Args) > 0 && isGU(cc.Args[0]) {
+					detaches = true
+				}
+				if sc := cc.StaticCallee(); sc != nil && c.inRepo(sc) && sc != f && strings.HasSuffix(fnPkgPath(sc), pkgRegistry) && purges(sc, depth-1) {
+					viaCallee = true
+				}
+			})
+		}
+		return (ranges && detaches) || viaCallee
+	}
+	n := 0
+	for _, f := range c.Funcs {
+		if f.Parent() != nil || !strings.HasSuffix(fnPkgPath(f), pkgRegistry) || f.Signature.Recv() == nil || !isNamed(f.Signature.Recv().Type(), pkgRegistry, owner) {
+			continue
+		}
+		var stores []ssa.Instruction
+		for _, g := range withAnon(f) {
+			eachInstr(g, func(in ssa.Instruction) {
+				cc := getCall(in)
+				if cc == nil || cc.IsInvoke() || len(cc.Args) == 0 {
+					return
+				}
+				ci := describeCall(cc)
+				if strings.Contains(ci.Pkg, "xsync") && (ci.Name == "Store" || ci.Name == "LoadOrStore" || ci.Name == "Compute") && isGU(cc.Args[0]) {
+					stores = append(stores, in)
+				}
+			})
+		}
+		if len(stores) == 0 {
+			continue
+		}
+		n++
+		key := fname(f) + ":old-attributions-purged"
+		// a purge step in f that dominates every merge store
+		var step ssa.Instruction
+		eachInstr(f, func(in ssa.Instruction) {
+			cc := getCall(in)
+			if cc == nil || step != nil {
+				return
+			}
+			ci := describeCall(cc)
+			if !cc.IsInvoke() && strings.Contains(ci.Pkg, "xsync") && (ci.Name == "Range" || ci.Name == "All") && len(cc.Args) > 0 && isGU(cc.Args[0]) && purges(f, 1) {
+				step = in
+			}
+			if sc := cc.StaticCallee(); sc != nil && c.inRepo(sc) && strings.HasSuffix(fnPkgPath(sc), pkgRegistry) && purges(sc, 3) {
+				step = in
+			}
+		})
+		if step == nil {
+			// the merge may have been split off into a helper: then every caller purges before it calls the helper
+			var callerPurges func(g *ssa.Function, depth int) bool
+			callerPurges = func(g *ssa.Function, depth int) bool {
+				if depth == 0 {
+					return false
+				}
+				sites := 0
+				all := true
+				for _, h := range c.Funcs {
+					if h.Parent() != nil {
+						continue
+					}
+					eachInstr(h, func(in ssa.Instruction) {
+						cc := getCall(in)
+						if cc == nil || cc.StaticCallee() != g {
+							return
+						}
+						sites++
+						var hs ssa.Instruction
+						eachInstr(h, func(x ssa.Instruction) {
+							c2 := getCall(x)
+							if c2 == nil || hs != nil {
+								return
+							}
+							ci := describeCall(c2)
+							if !c2.IsInvoke() && strings.Contains(ci.Pkg, "xsync") && (ci.Name == "Range" || ci.Name == "All") && len(c2.Args) > 0 && isGU(c2.Args[0]) && purges(h, 1) {
+								hs = x
+							}
+							if sc := c2.StaticCallee(); sc != nil && sc != g && c.inRepo(sc) && strings.HasSuffix(fnPkgPath(sc), pkgRegistry) && purges(sc, 3) {
+								hs = x
+							}
+						})
+						if hs == nil || !instrDominates(hs, in) {
+							if !callerPurges(h, depth-1) {
+								all = false
+							}
+						}
+					})
+				}
+				return sites > 0 && all
+			}
+			if callerPurges(f, 2) {
+				r.OK(rule, key, stores[0].Pos(), "merge helper: every caller detaches the endpoint from the catalogue's other entries before calling it")
+				continue
+			}
+			r.Bad(rule, key, stores[0].Pos(), "the merged catalogue is updated only for the ids of the new listing: an entry for a model the endpoint no longer lists is never visited, keeps the endpoint among its sources, and lookups by that id still answer with the endpoint")
+			continue
+		}
+		ok := true
+		for _, st := range stores {
+			if st.Parent() == f && !instrDominates(step, st) {
+				ok = false
+			}
+		}
+		if ok {
+			r.OK(rule, key, step.Pos(), "the endpoint is detached from the catalogue's other entries before the new listing is merged")
+		} else {
+			r.Bad(rule, key, step.Pos(), "the purge of the endpoint's old attributions does not happen on every path that merges the new listing")
+		}
+	}
+	if n == 0 {
+		r.Undecided(rule, "merged-catalogue-store", token.NoPos, "no store into UnifiedMemoryModelRegistry.globalUnified found")
+	}
+	addMutants(Mutant{Prop: strings.Split(rule, "-")[0], Name: "merged-catalogue-not-purged", File: "internal/adapter/registry/unified_memory_registry.go", Rule: rule,
+		Old: "	r.detachEndpointLocked(endpointURL, func(id string) bool {\n		_, stillListed := modelGroups[id]\n		return !stillListed\n	})\n",
+		New: "	if len(modelGroups) == 0 {\n		r.detachEndpointLocked(endpointURL, func(id string) bool { return true })\n	}\n"})
+}
